@@ -332,6 +332,19 @@ def mk_extra(i, x):
     return kw
 
 
+def member_name(e):
+    """the ComponentModelType member name the documentation derives from a catalogue entry"""
+    return re.sub('[ -]', '_', e['Type']) + '_' + re.sub('[ -]', '_', e['Model'])
+
+
+def entry_of_member(name):
+    """(index, entry) of the FIRST catalogue entry (resource file order) whose derived member name is `name`"""
+    for i, e in enumerate(repo_json('fim/slivers/data/component_catalog.json')):
+        if member_name(e) == name:
+            return i, e
+    return None, None
+
+
 def lobj_of(case):
     """object id of the label at each position (default: all distinct objects)"""
     return case.get('lobj') or list(range(len(case['labs'] or [])))
@@ -380,7 +393,7 @@ class Components(Stream):
         out = []
         for e in cat:
             sels = [['tm', e['Type'], e['Model']]] + [['tm', e['Type'], a] for a in e.get('AlsoModels', [])]
-            sels += [['mt', m.name] for m in enum if emap[m] is e or emap[m] == e][:1]
+            sels += [['mt', member_name(e)]]      # by the catalogue TABLE, not by iterating the enum (iteration skips aliases)
             n = len(e.get('Interfaces', {}))
             shapes = [(None, None)]
             ids_ok = ['id-%d' % i for i in range(n)]
@@ -435,7 +448,11 @@ class Components(Stream):
         return [{'name': 'myNIC', 'sel': ['tm', 'SmartNIC', 'ConnectX-6'], 'nsid': None, 'ids': None, 'labs': None, 'parent': None},
                 {'name': 'myGPU', 'sel': ['tm', 'GPU', 'Quadro RTX 6000/8000'], 'nsid': None, 'ids': None, 'labs': None, 'parent': None},
                 {'name': 'some', 'sel': ['tm', 'SmartNIC', 'blah'], 'nsid': None, 'ids': None, 'labs': None, 'parent': None},
-                {'name': 'myNIC', 'sel': ['mt', 'SmartNIC_ConnectX_6'], 'nsid': None, 'ids': None, 'labs': None, 'parent': None}]
+                {'name': 'myNIC', 'sel': ['mt', 'SmartNIC_ConnectX_6'], 'nsid': None, 'ids': None, 'labs': None, 'parent': None},
+                # two entries share the Model string 'ConnectX-6': their members must stay two members (seed C18-12)
+                {'name': 'shnic', 'sel': ['mt', 'SharedNIC_ConnectX_6'], 'nsid': None, 'ids': ['id-0'], 'labs': [None], 'parent': None},
+                {'name': 'smnic', 'sel': ['mt', 'SmartNIC_ConnectX_6'], 'nsid': None, 'ids': ['id-0', 'id-1'], 'labs': [2, None],
+                 'parent': None}]
 
     def call(self, case, pool=None):
         """run generate_component; returns (component | {'err'}, the label objects handed over, the id list handed over)"""
@@ -461,7 +478,9 @@ class Components(Stream):
         kw = {}
         s = case['sel']
         if s[0] == 'mt':
-            kw['model_type'] = enum[s[1]]
+            if s[1] not in enum.__members__:
+                return {'err': 'NoSuchMember'}, labs, None
+            kw['model_type'] = enum.__members__[s[1]]
         elif s[0] == 'foreign':
             kw['model_type'] = ComponentType.GPU          # an enum member, but not of the combined enumeration
         else:
@@ -535,8 +554,8 @@ class Components(Stream):
         if s[0] == 'foreign':
             sel = '(ByModelType 0%N)'
         elif s[0] == 'mt':
-            enum, _ = self.members()
-            sel = '(ByModelType %s)' % cN(enum[s[1]].value)
+            idx, _ = entry_of_member(s[1])
+            sel = '(ByModelType %s)' % cN(0 if idx is None else idx + 1)
         else:
             sel = '(ByTypeModel %s %s)' % (copt(s[1], cstr), copt(s[2], cstr))
 
@@ -562,8 +581,8 @@ class Components(Stream):
         if s[0] == 'foreign':
             return 'KeyError'
         if s[0] == 'mt':
-            enum, emap = self.members()
-            return emap[enum[s[1]]]
+            _, e = entry_of_member(s[1])        # the truth is the resource file, not the implementation's own map
+            return e if e is not None else 'KeyError'
         if s[1] is None or s[2] is None:
             return 'RuntimeError'
         for e in cat:
@@ -688,7 +707,9 @@ class Enum(Stream):
     header = HDR
     case_type = 'unit * val'
     check_fn = 'check_enum'
-    rule = 'the one ComponentModelType enumeration built at import: member names, values and the entries they map to'
+    rule = ('the one ComponentModelType enumeration built at import, observed by iteration (names, values, mapped entries) AND by the '
+            'catalogue table: for every entry the derived member name exists, is a member of its own (not an alias, distinct object) '
+            'and maps back to that entry; member count = entry count')
 
     def gen(self, rng, tier):
         return [0]
@@ -696,24 +717,48 @@ class Enum(Stream):
     def observe(self, case):
         import fim.slivers.component_catalog as cc
         try:
-            return [[m.name, m.value, [cc.ComponentModelTypeMap[m]['Model'], cc.ComponentModelTypeMap[m]['Type']]]
-                    for m in cc.ComponentModelType]
+            en, mp = cc.ComponentModelType, cc.ComponentModelTypeMap
+            it = [[m.name, m.value, [mp[m]['Model'], mp[m]['Type']]] for m in en]
+            by_entry = []
+            for e in repo_json('fim/slivers/data/component_catalog.json'):      # by the catalogue TABLE
+                nm = member_name(e)
+                m = en.__members__.get(nm)
+                by_entry.append([nm, None] if m is None else
+                                [nm, m.name, id(m), [mp[m]['Model'], mp[m]['Type']] if m in mp else None])
+            return {'iter': it, 'by_entry': by_entry, 'n_members': len(list(en)), 'n_names': len(en.__members__)}
         except Exception as e:
             return {'err': type(e).__name__}
 
     def to_coq(self, case, o):
-        return '(tt, %s)' % py_val(o)
+        return '(tt, %s)' % py_val(o if 'err' in o else o['iter'])
 
     def oracle(self, case, o):
-        if isinstance(o, dict):
+        if 'err' in o:
             return 'enumeration raised ' + o['err']
         cat = repo_json('fim/slivers/data/component_catalog.json')
-        if sorted(x[2] for x in o) != sorted([e['Model'], e['Type']] for e in cat) or len(o) != len(cat):
-            return 'the combined type-model enumeration does not list exactly the catalogue entries: %r' % (
-                [x[2] for x in o],)
-        for (nm, v, (m, t)), e in zip(o, cat):
-            if nm != re.sub('[ -]', '_', t) + '_' + re.sub('[ -]', '_', m) or [m, t] != [e['Model'], e['Type']]:
+        if o['n_members'] != len(cat):
+            return 'the combined enumeration has %d members for %d catalogue entries' % (o['n_members'], len(cat))
+        seen = {}
+        for row, e in zip(o['by_entry'], cat):
+            nm = row[0]
+            if row[1] is None:
+                return 'no member %s for entry %s/%s' % (nm, e['Type'], e['Model'])
+            _, canon, ident, mapped = row
+            if canon != nm:
+                return 'member name %s is only an alias of %s: entry %s/%s has no member of its own' % (nm, canon, e['Type'], e['Model'])
+            if ident in seen:
+                return 'entries %s and %s share one member object' % (seen[ident], nm)
+            seen[ident] = nm
+            if mapped != [e['Model'], e['Type']]:
+                return 'member %s maps to %r, not to its entry %s/%s' % (nm, mapped, e['Type'], e['Model'])
+        it = o['iter']
+        if sorted(x[2] for x in it) != sorted([e['Model'], e['Type']] for e in cat):
+            return 'the combined type-model enumeration does not list exactly the catalogue entries: %r' % ([x[2] for x in it],)
+        for (nm, v, (m, t)), e in zip(it, cat):
+            if nm != member_name(e) or [m, t] != [e['Model'], e['Type']]:
                 return 'member %s does not denote entry %s/%s' % (nm, e['Type'], e['Model'])
+        if len(set(repr(x[1]) for x in it)) != len(it):
+            return 'member values repeat'
         return None
 
     def key(self, case, o):
@@ -1060,6 +1105,17 @@ class C18(Check):
                         'ok': bool(ok), 'detail': '%d sizes' % len(tab)})
         except Exception as e:
             out.append({'name': 'list_instances() equals the regenerated inst_sizes table', 'ok': False, 'detail': repr(e)})
+        try:
+            import fim.slivers.component_catalog as cc
+            cat = repo_json('fim/slivers/data/component_catalog.json')
+            en = cc.ComponentModelType
+            names = [member_name(e) for e in cat]
+            ok = len(list(en)) == len(cat) and [m.name for m in en] == names and len(en.__members__) == len(cat)
+            out.append({'name': 'the combined enumeration has exactly one member per catalogue entry (no aliases)', 'ok': bool(ok),
+                        'detail': '%d members, %d names, %d entries' % (len(list(en)), len(en.__members__), len(cat))})
+        except Exception as e:
+            out.append({'name': 'the combined enumeration has exactly one member per catalogue entry (no aliases)', 'ok': False,
+                        'detail': repr(e)})
         return out
 
 
